@@ -75,6 +75,7 @@ type cSnapshot struct {
 // CMode is the state of one concurrency-mode analysis.
 type CMode struct {
 	x        *Exec
+	deadThreads map[*cThread]bool // threads left out of the encoding (their go statement does not exist in the final pass)
 	threads  []*cThread
 	byKey    map[string]*cThread
 	cands    map[string][]string // cell -> candidate values (initial value first)
@@ -1095,6 +1096,27 @@ func (cm *CMode) solve() {
 	on := func(n *cNode) string { return fmt.Sprintf("on%d", n.id) }
 	ck := func(n *cNode) string { return fmt.Sprintf("c%d", n.id) }
 
+	// threads of an earlier unfolding pass whose `go` does not exist any more can never run: leave
+	// their nodes out of the encoding altogether (they would only be constrained to "off")
+	{
+		dead := map[*cThread]bool{}
+		for _, t := range cm.threads {
+			if t.root != nil && !t.observer && !t.harness && t.spawner == nil {
+				dead[t] = true
+			}
+		}
+		if len(dead) > 0 {
+			var keep []*cNode
+			for _, n := range cm.nodes {
+				if !dead[n.thr] {
+					keep = append(keep, n)
+				}
+			}
+			cm.nodes = keep
+		}
+		cm.deadThreads = dead
+	}
+
 	for _, n := range cm.nodes {
 		w("(declare-const %s Bool)", on(n))
 		w("(declare-const %s Int)", ck(n))
@@ -1130,8 +1152,8 @@ func (cm *CMode) solve() {
 		case t.harness:
 			// harness threads may or may not have started (prefix-closed executions)
 		case t.spawner == nil:
-			// a thread of an earlier unfolding pass whose `go` does not exist any more
-			w("(assert (not %s))", on(t.root))
+			// a thread of an earlier unfolding pass whose `go` does not exist any more: its nodes
+			// were left out above
 		default:
 			var alts []string
 			for _, sp := range t.spawners {
